@@ -1,8 +1,8 @@
 SPECIFICATION Spec
 CONSTANTS
-  MaxOps = 9
-  UnitKinds = {"set32", "set64", "getp", "getq"}
-  MaxPos = 3
+  MaxOps = 3
+  UnitKinds = {"getp"}
+  MaxPos = 2
   Sigs = {1, 2}
 INVARIANTS
   EmitCase
